@@ -7,6 +7,13 @@ the Lean model predicts refusal and the set of surviving references; the impleme
 Monitor (independent of the model): deleted ids are gone and unresolvable, no relation of a former
 referrer yields a deleted object, nothing else is removed or altered, a refused deletion leaves every
 fragment byte-identical and the indexes untouched.
+
+The declarative entry point (`decl.apply` with `delete:`) is a model of its own (Capella.DeclDelete: the loop of
+`_operate_delete` over the per-object deletion of Capella.Delete): instructions that name k >= 2 members of one list in
+every order, members of two lists of one parent, whole attributes mixed with members go to the model and to
+`decl.apply`; outcome, deleted members, surviving elements and references are compared, and the monitor judges the
+instruction as a whole (exactly the named objects are gone, every other member is still there, in order, resolvable;
+after a refusal exactly the objects named in front of the refused one are gone).
 """
 
 from __future__ import annotations
@@ -25,8 +32,9 @@ DRIVERS = ["Delete", "Accessor"]
 TABLES = True
 RULE = ("deletion targets drawn from every corpus model: random objects, most-referenced objects, objects referenced from "
         "physical link ends (refusing), subtree roots; after 0-10 random prior edits; through del lst[i], lst.remove(x), "
-        "del owner.attr, assigning [] and the declarative 'delete'; distinct = (model, entry point, outcome, number of "
-        "incoming references by kind); non-trivial = the target has incoming references or descendants, or the deletion is refused")
+        "del owner.attr, assigning [] and the declarative 'delete' (one object; k >= 2 members of one list named in "
+        "ascending, descending and arbitrary order; members of two lists of one parent; whole attributes mixed with members); "
+        "distinct = (model, entry point with the shape of the instruction, outcome, number of incoming references by kind); non-trivial = the target has incoming references or descendants, or the deletion is refused")
 ASSUMPTIONS = [
     "references not exposed by any accessor of the owner's class are outside the claim (they are counted and reported as 'unexposed')",
     "purge exits that swallow an exception (logged by the library) would leave a reference behind: the monitor checks the outcome, the model assumes exits succeed",
@@ -39,7 +47,8 @@ MANIFEST = dict(
           "the deletion raise before anything is written. Tied to /repo by extracting the reference graph around each "
           "deletion target with a raw scan and comparing refusal and surviving references with the model, and by an "
           "independent monitor (raw tree diff, relation reads of former referrers, byte comparison after a refusal)."
-          ' Deletions are additionally executed by the accessor model over the real tree (enter-all / remove / exit-all with reference search and per-kind purge contexts); a refusal in the enter phase is proved to change nothing.'),
+          ' Deletions are additionally executed by the accessor model over the real tree (enter-all / remove / exit-all with reference search and per-kind purge contexts); a refusal in the enter phase is proved to change nothing.'
+          " The declarative entry point is modelled as the loop of _operate_delete over the per-object deletion: proved to delete exactly the named members whatever the order they are named in (every permutation leaves the same list), and after a refusal exactly the objects named in front of the refused one; tied by sending each generated instruction to the model and to decl.apply."),
     design_ref="§6 C09",
     note="Trusted: Lean kernel; the harness's classification of references by accessor kind; find_references' XPath pre-filter is validated by the raw scan (C10 covers it in depth).",
     technique="Lean 4 proof (two-phase deletion on a reference graph: coverage of purge contexts, refusal before write) + differential correspondence and raw-diff monitor on real deletions",
@@ -294,21 +303,152 @@ def entry_points(model, tgt, rng: random.Random):
                 # the whole list at once: one refusing member must keep ALL members (and everything else) untouched
                 others = [x for x in lst if x is not tgt]
                 out.append(("delattr-all", lambda r=r: delattr(r.owner, r.attr), r, *others))
-            out.append(("decl-delete", lambda r=r: decl_delete(model, r, tgt), r))
+            out.append(decl_entry(model, "decl-delete", [(r, [tgt])]))
             if len(lst) >= 2 and i + 1 < len(lst):
-                other = lst[i + 1]
-                out.append(("decl-delete-2", lambda r=r, other=other: decl_delete(model, r, tgt, other), r, other))
+                out.append(decl_entry(model, "decl-delete-2", [(r, [tgt, lst[i + 1]])]))   # two members, in list order
+            out += decl_entries(model, parent, r, lst, tgt, rng)
             break
     return out
 
 
-def decl_delete(model, rel, tgt, other=None):
-    from capellambse import decl
+WHOLE_KINDS = ("DirectProxyAccessor", "AttributeMatcherAccessor")
+DECL_MULTI = ("decl-delete-perm", "decl-delete-attr", "decl-delete-multi")
 
-    doc = f"- parent: !uuid {rel.owner.uuid}\n  delete:\n    {rel.attr}:\n      - !uuid {tgt.uuid}\n"
-    if other is not None:   # two members of one list in one instruction, in list order
-        doc += f"      - !uuid {other.uuid}\n"
-    decl.apply(model, __import__("io").StringIO(doc))
+
+class Instr:
+    """one declarative `delete:` instruction on one parent: entries (relation, None = the whole attribute | the objects
+    named, in the order named)"""
+
+    def __init__(self, model, entries):
+        self.entries = entries
+        self.owner = entries[0][0].owner
+        self.lists = [(r, list(r.get())) for r, _ in entries]    # the members of every list the instruction touches, before
+        self.roots = []                                           # the objects the instruction is to delete, in instruction order
+        self.blocks = []                                          # (first, last+1) positions in `roots` of whole-attribute entries
+        for (r, named), (_, members) in zip(entries, self.lists):
+            if named is None:
+                self.blocks.append((len(self.roots), len(self.roots) + len(members)))
+                self.roots += members
+            else:
+                self.roots += named
+
+    def doc(self) -> str:
+        doc = f"- parent: !uuid {self.owner.uuid}\n  delete:\n"
+        for r, named in self.entries:
+            doc += f"    {r.attr}:\n"
+            for x in named or ():
+                doc += f"      - !uuid {x.uuid}\n"
+        return doc
+
+    def shape(self) -> str:
+        def order(named, members):
+            pos = [members.index(x) for x in named]
+            return "one" if len(pos) == 1 else "asc" if pos == sorted(pos) else "desc" if pos == sorted(pos, reverse=True) else "perm"
+        return ",".join("whole" if named is None else f"{len(named)}{order(named, ms)}" for (r, named), (_, ms) in zip(self.entries, self.lists))
+
+
+def decl_entry(model, name, entries):
+    instr = Instr(model, entries)
+
+    def fn():
+        from capellambse import decl
+
+        decl.apply(model, __import__("io").StringIO(instr.doc()))
+
+    fn.instr = instr
+    tgt = instr.roots[0] if instr.roots else None
+    return (name, fn, entries[0][0], *[x for x in instr.roots if x is not tgt])
+
+
+def ordered(rng: random.Random, lst, named):
+    """the named members in ascending list order, descending, or an arbitrary permutation"""
+    how = rng.choice(["asc", "desc", "perm", "perm"])
+    named = sorted(named, key=lst.index)
+    if how == "desc":
+        named.reverse()
+    elif how == "perm":
+        rng.shuffle(named)
+    return named
+
+
+def decl_entries(model, parent, r, lst, tgt, rng: random.Random):
+    """declarative instructions that delete `tgt` together with other children of the same parent: k >= 2 members of
+    one list in every order, members of two lists of the parent, whole attributes mixed with members"""
+    out = []
+    if len(lst) >= 2:
+        k = rng.randint(2, min(4, len(lst)))
+        named = [tgt] + rng.sample([x for x in lst if x != tgt], k - 1)
+        out.append(decl_entry(model, "decl-delete-perm", [(r, ordered(rng, lst, named))]))
+    if r.kind in WHOLE_KINDS and len(lst) <= 12:
+        out.append(decl_entry(model, "decl-delete-attr", [(r, None)]))
+    # a second containment list of the same parent with other members
+    mine = {id(x._element) for x in lst}
+    second = []
+    for r2 in objops.discover_for(model, parent):
+        if not r2.contain or r2.attr == r.attr:
+            continue
+        try:
+            l2 = r2.get()
+        except Exception:  # noqa: BLE001
+            continue
+        if 1 <= len(l2) <= 12 and not mine & {id(x._element) for x in l2}:
+            second.append((r2, l2))
+    if second:
+        r2, l2 = rng.choice(second)
+        k1 = rng.randint(1, min(3, len(lst)))
+        e1 = (r, ordered(rng, lst, [tgt] + rng.sample([x for x in lst if x != tgt], k1 - 1)))
+        if r2.kind in WHOLE_KINDS and rng.random() < 0.5:
+            e2 = (r2, None)
+        else:
+            e2 = (r2, ordered(rng, l2, rng.sample(list(l2), rng.randint(1, min(3, len(l2))))))
+        if r.kind in WHOLE_KINDS and len(lst) <= 12 and e2[1] is not None and rng.random() < 0.25:
+            e1 = (r, None)
+        entries = [e1, e2]
+        rng.shuffle(entries)
+        out.append(decl_entry(model, "decl-delete-multi", entries))
+    return out
+
+
+def decl_order_scenario(ctx: Ctx, out: Outcome, key: str, req, impl, meta, model=None):
+    """Deterministic coverage of the naming order: on owners of the longest containment lists of the model, one
+    instruction each that names three members in descending list order, one in a rotated order (neither ascending nor
+    descending) and one that names two in descending order."""
+    if model is None:
+        model = ol.load(ctx, key)
+    ol.raw_scan(model._loader)   # pins every lxml proxy: python id() is the element identity of the snapshots
+    _ROOTS.clear()
+    _ROOTS.update(id(t.root) for t in model._loader.trees.values())
+    rng = random.Random(f"c09o:{ctx.seed}:{key}")
+    sized = []
+    for r in objops.discover(model, rng, max_objs=600):
+        if not r.contain:
+            continue
+        try:
+            n = len(r.get())
+        except Exception:  # noqa: BLE001
+            continue
+        if n >= 3:
+            sized.append((n, r.key(), r))
+    sized.sort(key=lambda t: (-t[0], t[1]))
+    pool = [t[2] for t in sized[:12] if t[0] >= 8] or [t[2] for t in sized[:12]]   # 8 members: enough for all three instructions
+    rng.shuffle(pool)
+    done = 0
+    for r in pool:
+        for how in ("desc3", "rot3", "desc2"):
+            try:
+                lst = r.get()
+                if len(lst) < 3 or not attached_to_model(r.owner._element):
+                    break
+                named = sorted(rng.sample(list(lst), 3 if how != "desc2" else 2), key=lst.index)
+            except Exception:  # noqa: BLE001
+                break
+            named = named[::-1] if how != "rot3" else [named[1], named[2], named[0]]
+            ep = decl_entry(model, "decl-delete-perm", [(r, named)])
+            one_deletion(ctx, out, model, key, named[0], ep[0], ep[1], ep[2], "naming-order", req, impl, meta, instr=ep[1].instr)
+            out.hit(f"scenario.naming-order.{how}")
+        done += 1
+        if done >= ctx.pick(2, 5):
+            break
 
 
 def refusing_list_scenario(ctx: Ctx, out: Outcome, key: str, req, impl, meta):
@@ -343,6 +483,7 @@ def refusing_list_scenario(ctx: Ctx, out: Outcome, key: str, req, impl, meta):
             break
         if done >= ctx.pick(2, 6):
             break
+    return model
 
 
 def run(ctx: Ctx) -> Outcome:
@@ -351,7 +492,8 @@ def run(ctx: Ctx) -> Outcome:
     out = Outcome(rule=RULE)
     req, impl, meta = [], [], []
     for key in (["t50", "t52", "t60"] if ctx.thorough else ["t50"]):
-        refusing_list_scenario(ctx, out, key, req, impl, meta)
+        model = refusing_list_scenario(ctx, out, key, req, impl, meta)
+        decl_order_scenario(ctx, out, key, req, impl, meta, model=model)   # in the state the first scenario leaves behind
     for key, ndel in (THOROUGH if ctx.thorough else QUICK):
         rng = random.Random(f"c09:{ctx.seed}:{key}")
         model = None
@@ -384,7 +526,12 @@ def run(ctx: Ctx) -> Outcome:
             eps = entry_points(model, tgt, rng)
             if not eps:
                 continue
-            ep = rng.choice(eps)
+            ep = rng.choice([e for e in eps if e[0] not in DECL_MULTI])
+            multi = [e for e in eps if e[0] in DECL_MULTI]
+            if multi and rng.random() < 0.3:
+                # the declarative entry point with several objects per instruction (every naming order, two lists, whole attributes)
+                two = [e for e in multi if e[0] == "decl-delete-multi"]
+                ep = rng.choice(two) if two and rng.random() < 0.5 else rng.choice(multi)
             if mode in ("port_with_link", "owner_of_port"):
                 # a refusing member somewhere in the list: prefer deleting the whole list at once
                 alls = [e for e in eps if e[0] == "delattr-all"]
@@ -405,9 +552,10 @@ def run(ctx: Ctx) -> Outcome:
                     except Exception:  # noqa: BLE001
                         pass
             name, fn, rel = ep[:3]
+            instr = getattr(fn, "instr", None)
             if acc is not None:
                 fn = acc.wrap(model, fn, deletion_call(acc, name, rel, tgt), f"delete.{name}", rel)
-            one_deletion(ctx, out, model, key, tgt, name, fn, rel, mode, req, impl, meta, extra=[x._element for x in ep[3:]])
+            one_deletion(ctx, out, model, key, tgt, name, fn, rel, mode, req, impl, meta, extra=[x._element for x in ep[3:]], instr=instr)
             if _ROOTS != {id(t.root) for t in model._loader.trees.values()}:
                 _ROOTS.clear()
                 _ROOTS.update(id(t.root) for t in model._loader.trees.values())
@@ -418,6 +566,23 @@ def run(ctx: Ctx) -> Outcome:
         answers = common.model(req, driver="Delete")
         for m, iv, ans in zip(meta, impl, answers):
             mv = ans.get("ok", {"err": ans.get("err")})
+            if isinstance(iv, dict) and "deleted" in iv:
+                # a declarative instruction: outcome, the members that are gone, surviving elements and references
+                if isinstance(mv, dict) and "deleted" in mv:
+                    mv = {"outcome": mv["outcome"], "deleted": sorted(mv["gone"]), "refs": sorted(mv["refs"]), "elems": sorted(mv["elems"])}
+                if mv != iv:
+                    detail = None
+                    if isinstance(mv, dict) and "deleted" in mv:
+                        names = m[4]
+                        detail = {"impl_outcome": iv["outcome"], "model_outcome": mv["outcome"],
+                                  "deleted_by_impl_only": [names.get(i, i) for i in sorted(set(iv["deleted"]) - set(mv["deleted"]))],
+                                  "deleted_by_model_only": [names.get(i, i) for i in sorted(set(mv["deleted"]) - set(iv["deleted"]))],
+                                  "refs": [m[3][i] for i in sorted(set(mv["refs"]) ^ set(iv["refs"])) if i < len(m[3])][:6]}
+                        iv = {k: (v if k in ("outcome",) else len(v)) for k, v in iv.items()}
+                        mv = {k: (v if k in ("outcome",) else len(v)) for k, v in mv.items()}
+                    out.disagree("decl-delete", list(m[:3]) + [m[5], detail], iv, mv)
+                out.hit("decl-delete.model." + str(iv["outcome"] if isinstance(iv, dict) else iv))
+                continue
             if isinstance(mv, dict) and "refs" in mv:
                 mv = {"refs": sorted(mv["refs"]), "elems": sorted(mv.get("elems", []))}
             if mv != iv:
@@ -453,28 +618,61 @@ def deletion_call(acc, name, rel, tgt):
     return {"_decline": f"entry:{name}"}
 
 
-def one_deletion(ctx, out, model, key, tgt, name, fn, rel, mode, req, impl, meta, extra=()):
+MODELLED_OUTCOMES = ("ok", "NotImplementedError", "KeyError", "ValueError")
+
+
+def one_deletion(ctx, out, model, key, tgt, name, fn, rel, mode, req, impl, meta, extra=(), instr=None):
     loader = model._loader
     tgt_el = tgt._element
     tgt_uuid = tgt.uuid
+    root_els = [tgt_el, *extra]
+    if instr is not None:
+        # a declarative instruction: the objects it is to delete, in instruction order
+        root_els = [x._element for x in instr.roots]
+        tgt_el, extra = root_els[0], root_els[1:]
     sub, elems, refs = extract_graph(model, tgt_el, extra)
-    sub_ids = [x.get("id") for x in sub if x.get("id")]
-    sub_n = {id(x) for x in sub}
 
     def root_of(x):
         while x.getparent() is not None:
             x = x.getparent()
         return id(x)
 
-    spanning = len({root_of(x) for x in sub}) > 1   # the subtree continues in other fragment files
-    tgt_roots = {root_of(tgt_el)} | {root_of(x) for x in extra}
+    tgt_roots = {root_of(x) for x in root_els}
     local_sub = [id(x) for x in sub if root_of(x) in tgt_roots]   # what parent.remove() detaches (computed before the deletion)
-    span = "|fragment-spanning" if spanning else ""
     # the deleting accessor's own containment relation is not a stored reference; nothing to exclude
     snap0 = ol.tree_snapshot(loader)
     h0, d0 = ol.frag_hashes(loader), ol.index_dump(loader)
-    parentless = [id(x) for x in [tgt_el, *extra] if x.getparent() is None]   # roots of fragment files among the elements the call deletes (before the call)
-    incoming = [r for r in refs if r["target"] in sub_n and r["owner"] not in sub_n and r["carrier"] not in sub_n]
+    parentless = [id(x) for x in root_els if x.getparent() is None]   # roots of fragment files among the elements the call deletes (before the call)
+    ref_json = [{k: v for k, v in r.items() if not k.startswith("_")} for r in refs]
+    subs_of, decl_req, shape, lists_before, members_all = {}, None, None, [], {}
+    if instr is not None:
+        subs_of = {id(r): subtree(loader, r) for r in root_els}   # per named object, before the call
+        members_all = {id(x._element): x._element for _, ms in instr.lists for x in ms}
+        elems = list({id(x): x for x in [*elems, *members_all.values()]}.values())
+        ol._KEEP.append((elems, refs))
+        lists_before = [(r, [x.uuid for x in ms], [id(x._element) for x in ms]) for r, ms in instr.lists]
+        shape = instr.shape()
+        decl_req = {"op": "decl-delete", "elems": [id(x) for x in elems], "refs": ref_json,
+                    "parentless": [id(x) for x in members_all.values() if x.getparent() is None],
+                    "subs": [[id(r), [id(x) for x in subs_of[id(r)]], [id(x) for x in subs_of[id(r)] if root_of(x) == root_of(r)]] for r in root_els],
+                    "lists": [[r.attr, ids] for r, _, ids in lists_before],
+                    "entries": [[r.attr, None if named is None else [id(x._element) for x in named]] for r, named in instr.entries]}
+
+    def scope(roots):
+        """the elements that go with `roots`, and the references that point into them from outside"""
+        if instr is None:
+            sb = sub
+        else:
+            sb = []
+            for r in roots:
+                seen = {id(z) for z in sb}
+                sb += [y for y in subs_of[id(r)] if id(y) not in seen]
+        sb_n = {id(x) for x in sb}
+        inc = [r for r in refs if r["target"] in sb_n and r["owner"] not in sb_n and r["carrier"] not in sb_n]
+        return sb, sb_n, [x.get("id") for x in sb if x.get("id")], inc, len({root_of_before.get(id(x)) for x in sb}) > 1
+
+    root_of_before = {id(x): root_of(x) for x in sub}
+    sub, sub_n, sub_ids, incoming, spanning = scope(root_els)   # spanning: the subtree continues in other fragment files
     kinds = sorted({r["kind"] for r in incoming})
     try:
         fn()
@@ -484,9 +682,15 @@ def one_deletion(ctx, out, model, key, tgt, name, fn, rel, mode, req, impl, meta
     except BaseException as e:  # noqa: BLE001
         outcome = type(e).__name__
     nontrivial = bool(incoming) or len(sub) > 1 or outcome != "ok"
-    out.case((key, name, outcome, tuple(kinds), min(len(incoming), 5)),
-             {"model": key, "entry": name, "target": tgt_uuid, "class": type(tgt).__name__, "subtree": len(sub),
-              "incoming": {k: sum(1 for r in incoming if r["kind"] == k) for k in kinds}, "outcome": outcome}, nontrivial)
+    sample = {"model": key, "entry": name, "target": tgt_uuid, "class": type(tgt).__name__, "subtree": len(sub),
+              "incoming": {k: sum(1 for r in incoming if r["kind"] == k) for k in kinds}, "outcome": outcome}
+    if instr is not None:
+        sample["instruction"] = shape
+        out.extra.setdefault("decl_instruction_shapes", {})
+        out.extra["decl_instruction_shapes"][shape] = out.extra["decl_instruction_shapes"].get(shape, 0) + 1
+        for part in shape.split(","):
+            out.hit("decl.entry." + part.lstrip("0123456789"))
+    out.case((key, name if instr is None else f"{name}[{shape}]", outcome, tuple(kinds), min(len(incoming), 5)), sample, nontrivial)
     out.hit(f"entry.{name}.{'ok' if outcome == 'ok' else outcome}")
     for k in kinds:
         out.hit(f"incoming.{k}")
@@ -494,35 +698,94 @@ def one_deletion(ctx, out, model, key, tgt, name, fn, rel, mode, req, impl, meta
 
     def find(sig, msg):
         out.find(sig, f"{key}: {name} of {type(tgt).__name__} {tgt_uuid} ({mode}): {msg}",
-                 {"kind": "deletion", "model": key, "entry": name, "target": tgt_uuid, "mode": mode, "failure": sig})
+                 {"kind": "deletion", "model": key, "entry": name, "target": tgt_uuid, "mode": mode, "failure": sig,
+                  **({"instruction": instr.doc()} if instr is not None else {})})
 
-    # model request
-    req.append({"op": "delete", "elems": [id(x) for x in elems],
-                "refs": [{k: v for k, v in r.items() if not k.startswith("_")} for r in refs], "sub": [id(x) for x in sub],
-                "local": local_sub, "parentless": parentless})
-    meta.append((key, name, tgt_uuid, [f"{r['kind']}:{r['slot']} on <{r['_e'].tag}> inside_sub={r['owner'] in sub_n or r['carrier'] in sub_n} target_in_sub={r['target'] in sub_n}" for r in refs]))
-    if outcome != "ok":
-        if outcome == "NotImplementedError":
-            impl.append("NotImplementedError")
-        else:
-            # a refusal the model does not describe (e.g. TypecastAccessor.purge_references raising
-            # AttributeError in its enter phase): outside the theorem's domain, judged by the monitor only
-            req.pop()
-            meta.pop()
-            out.extra.setdefault("unmodelled_refusals", {})
-            out.extra["unmodelled_refusals"][outcome] = out.extra["unmodelled_refusals"].get(outcome, 0) + 1
+    ref_meta = [f"{r['kind']}:{r['slot']} on <{r['_e'].tag}> inside_sub={r['owner'] in sub_n or r['carrier'] in sub_n} target_in_sub={r['target'] in sub_n}" for r in refs]
+
+    def surviving_refs():
+        return sorted(i for i, r in enumerate(refs) if ("#" + r["_tid"]) in r["_e"].get(r["_attr"], "") and attached_to_model(r["_e"]))
+
+    def refused_unchanged():
         h1, d1 = ol.frag_hashes(loader), ol.index_dump(loader)
-        if name == "decl-delete-2":
-            # two deletions in one instruction: the statement is per object, the first may have succeeded
-            out.hit("decl-delete-2.partial-not-judged")
-            return
         if h1 != h0:
             find(f"refused-deletion-changed-model|{outcome}", f"raised {outcome} but fragments {[f for f in h0 if h0[f] != h1.get(f)]} differ")
         if d1 != d0:
             find(f"refused-deletion-changed-index|{outcome}", f"raised {outcome} but the indexes differ")
-        return  # raising is allowed by the property as long as nothing changed (checked above)
-    surviving = sorted(i for i, r in enumerate(refs) if ("#" + r["_tid"]) in r["_e"].get(r["_attr"], "") and attached_to_model(r["_e"]))
-    impl.append({"refs": surviving, "elems": sorted(id(x) for x in elems if attached_to_model(x))})
+
+    if instr is not None:
+        # ---- tie: the whole instruction on the model (Model/DeclDelete.lean: operateDelete)
+        if outcome in MODELLED_OUTCOMES:
+            req.append(decl_req)
+            names = {nid: f"{e.tag} {e.get('id')}" for nid, e in members_all.items()}
+            meta.append((key, name, tgt_uuid, ref_meta, names, shape))
+            impl.append({"outcome": outcome, "deleted": sorted(nid for nid, e in members_all.items() if not attached_to_model(e)),
+                         "refs": surviving_refs(), "elems": sorted(id(x) for x in elems if attached_to_model(x))})
+        else:
+            out.extra.setdefault("unmodelled_refusals", {})
+            out.extra["unmodelled_refusals"][outcome] = out.extra["unmodelled_refusals"].get(outcome, 0) + 1
+        # ---- monitor, per instruction: which of the objects it names are gone?
+        gone = [i for i, r in enumerate(root_els) if not attached_to_model(r)]
+        if outcome == "ok":
+            judged = root_els            # all of them must be (checked below: deleted-id-still-in-tree)
+        else:
+            # the statement is per object: the instruction deletes the objects one after the other (a whole attribute
+            # at once), so what is gone must be exactly the objects in front of the refused one
+            if gone != list(range(len(gone))):
+                find(f"decl-delete|refused-instruction|deleted-not-a-prefix|{outcome}",
+                     f"raised {outcome}; of the objects to delete (in instruction order) those at positions {gone} are gone")
+            if any(a < len(gone) < b for a, b in instr.blocks):
+                find(f"decl-delete|refused-instruction|whole-attribute-half-deleted|{outcome}",
+                     f"raised {outcome} with a whole-attribute entry partly executed")
+            if not gone:
+                refused_unchanged()
+                return
+            out.hit("decl-delete.refused-after-prefix")
+            judged = [root_els[i] for i in gone]
+        judged_n = {id(r) for r in judged}
+        sub, sub_n, sub_ids, incoming, spanning = scope(judged)
+        # exactly the named members have left the lists; all others are still there, in their order, and resolvable
+        purged_ok = {r["carrier"] for r in incoming if r["kind"] == "linkElem"}   # members that ARE references to a deleted object go with it
+        for r, uu_before, ids_before in lists_before:
+            expected = [u for u, nid in zip(uu_before, ids_before) if nid not in judged_n and nid not in purged_ok]
+            try:
+                after = [x.uuid for x in r.get()]
+            except Exception as ex:  # noqa: BLE001
+                find("decl-delete|list-unreadable-afterwards", f"{type(r.owner).__name__}.{r.attr} raises {type(ex).__name__} after the instruction")
+                continue
+            if after != expected:
+                lost = [u for u in expected if u not in after]
+                kept = [u for u, nid in zip(uu_before, ids_before) if nid in judged_n and u in after]
+                kind = "unnamed-member-removed" if lost else "named-member-survives" if kept else "order-changed"
+                find(f"decl-delete|{kind}", f"{type(r.owner).__name__}.{r.attr} ({shape}): removed although never named {lost[:3]}, named but still a member {kept[:3]}; "
+                                            f"{len(uu_before)} members before, {len(after)} after, {len(expected)} expected")
+            for u in expected:
+                try:
+                    loader[u]
+                except KeyError:
+                    find("decl-delete|unnamed-member-unresolvable", f"by_uuid({u}) fails although the object was never named")
+                    break
+    else:
+        # model request
+        req.append({"op": "delete", "elems": [id(x) for x in elems], "refs": ref_json, "sub": [id(x) for x in sub],
+                    "local": local_sub, "parentless": parentless})
+        meta.append((key, name, tgt_uuid, ref_meta))
+        if outcome != "ok":
+            if outcome == "NotImplementedError":
+                impl.append("NotImplementedError")
+            else:
+                # a refusal the model does not describe (e.g. TypecastAccessor.purge_references raising
+                # AttributeError in its enter phase): outside the theorem's domain, judged by the monitor only
+                req.pop()
+                meta.pop()
+                out.extra.setdefault("unmodelled_refusals", {})
+                out.extra["unmodelled_refusals"][outcome] = out.extra["unmodelled_refusals"].get(outcome, 0) + 1
+            refused_unchanged()
+            return  # raising is allowed by the property as long as nothing changed (checked above)
+    span = "|fragment-spanning" if spanning else ""
+    surviving = surviving_refs()
+    if instr is None:
+        impl.append({"refs": surviving, "elems": sorted(id(x) for x in elems if attached_to_model(x))})
     # ---- monitor
     scan_ids = {e.get("id") for e in semantic_elems(loader) if e.get("id")}
     for k in sub_ids:
